@@ -3,18 +3,28 @@
 //! Requests (all byte strings / names travel as lower-case hex of their UTF-8 bytes; `-` = empty list):
 //!   CKPT-ENC  <fields>                         => `OK <hex file bytes> | <load answer>`   (real save_checkpoint + load_checkpoint)
 //!   CKPT-DEC  <hex file bytes>                 => `OK <fields>` | `ERR <class>` | `PANIC` | `ABORT` | `HANG`   (real load_checkpoint, child process)
-//!   CKPT-SAVE max=<none|n> pid=<hex> ts=<n> dir=<names>   => `OK <names after>`          (real save_checkpoint in a real directory)
+//!   CKPT-SAVE max=<none|n> c=<T|F> dir=<entries> <fields>   => `OK <entries after>`   (real save_checkpoint in a real directory;
+//!             entries = `<name>` or, with c=T, `<name>:<hex content>`: the model's file system then holds the real bytes
+//!             and the bytes of every file left after the clean-up are compared)
+//!   CKPT-SAVE-TIE max= pid=<hex> ts=<n> dir=<names>          => `OK own=<#own files left> other=<names of the rest>`
+//!             (two spellings of one stamp, `7`/`07`, present: the survivor depends on read_dir order, so the save is
+//!             executed and judged by the oracle and the model is compared on the order-independent facts)
+//!   CKPT-SLL  max=<none|n> dir=<entries with content> <fields> => `OK latest=none` | `OK latest=<name> | <load answer>`
+//!             (real save_checkpoint ; find_latest_checkpoint ; load_checkpoint of the returned path)
 //!   CKPT-LATEST en=<T|F> pid=<hex> dir=<names> => `SOME <name>` | `NONE`
+//!   CKPT-LATEST-TIE en= pid= dir=<names>       => `STAMP <t>` | `NONE`
 //!   CKPT-CLEAR pid=<hex> dir=<names>           => `OK <names after>`
 //!   CKPT-POLICY en= pol=<barrier|every:n|time:s|hybrid:b:s> idx= barrier= last=<none|ago:s|future:s>  => `T` | `F`
 //! <fields> = `pid=<hex> idx=<n> ts=<n> pc=<n> ck=<hex> em=<hex> tn=<n> lnt=<hex> pp=<n>`
-//! <names>  = comma-separated hex names sorted bytewise.
+//! <names>  = comma-separated hex names sorted bytewise (regular files only; sub-directories are tracked by the
+//!            oracle — every operation must leave them alone and none is ever a checkpoint — and hidden from the model).
 //!
 //! Oracles (never go through the model): round trip field-for-field; a loaded state has the protected
 //! fields and checksum of the state the file was derived from (so any alteration of them was rejected);
-//! never PANIC/ABORT/HANG; after a save at most `max` own files remain, they are the newest, nothing that is
-//! not a well-formed own file is touched; latest = own well-formed file of greatest stamp.
-//! "own well-formed file of pid" := `checkpoint_<pid>_<digits>.bin` whose digits parse as u64.
+//! never PANIC/ABORT/HANG (child with a 64 MiB address space); after a save at most `max` own files remain, they
+//! are the newest, nothing that is not a well-formed own file is touched (names AND bytes), the new file holds the
+//! encoding; latest = own well-formed file of greatest stamp; save;latest;load returns the saved state when it is
+//! the newest. "own well-formed file of pid" := regular file `checkpoint_<pid>_<digits>.bin` whose digits parse as u64.
 
 use crate::ctx::{Ctx, Rng, guarded, hex};
 use ironbeam::checkpoint::{
@@ -26,8 +36,11 @@ use std::process::{Command, Stdio};
 use std::sync::mpsc;
 use std::time::Duration;
 
-/// address-space limit of the decode child (KiB): a decoder that asks for a huge buffer dies => ABORT
-const CHILD_AS_LIMIT_KIB: u64 = 512 * 1024;
+/// address-space limit of the decode child (KiB): a decoder that asks for a huge buffer dies => ABORT.
+/// 64 MiB: the child needs about 30 MiB of address space to start (checked by a preflight run), so any single
+/// request of more than about 32 MiB kills it. (Requests between the 1 MiB decode limit and that are not seen by
+/// the oracle, but the model answers `ERR limit` for them, so they surface as a model/implementation disagreement.)
+const CHILD_AS_LIMIT_KIB: u64 = 64 * 1024;
 const CHILD_WATCHDOG_S: u64 = 30;
 
 #[derive(Clone, Debug, PartialEq, Eq)]
@@ -99,25 +112,46 @@ impl St {
     /// generator-side encoder (bincode standard layout) used ONLY to build hostile inputs and to know
     /// field offsets; the real bytes always come from `save_checkpoint`.
     fn gen_encode(&self) -> (Vec<u8>, Vec<usize>) {
+        let l = self.gen_layout();
+        (l.bytes, l.str_offsets)
+    }
+    /// the encoding with the offsets of its parts: `str_offsets` = the four string length prefixes,
+    /// `var_offsets` = all eight varints (four length prefixes + idx, ts, pc, tn) in wire order,
+    /// `bodies` = (start, len) of the four string bodies
+    fn gen_layout(&self) -> Layout {
         let mut out = vec![];
         let mut str_offsets = vec![];
-        let vi = |out: &mut Vec<u8>, v: u64| gen_varint(out, v);
-        let st = |out: &mut Vec<u8>, offs: &mut Vec<usize>, s: &str| {
-            offs.push(out.len());
+        let mut var_offsets = vec![];
+        let mut bodies = vec![];
+        fn vi(out: &mut Vec<u8>, vo: &mut Vec<usize>, v: u64) {
+            vo.push(out.len());
+            gen_varint(out, v);
+        }
+        fn st(out: &mut Vec<u8>, so: &mut Vec<usize>, vo: &mut Vec<usize>, bo: &mut Vec<(usize, usize)>, s: &str) {
+            so.push(out.len());
+            vo.push(out.len());
             gen_varint(out, s.len() as u64);
+            bo.push((out.len(), s.len()));
             out.extend_from_slice(s.as_bytes());
-        };
-        st(&mut out, &mut str_offsets, &self.pid);
-        vi(&mut out, self.idx);
-        vi(&mut out, self.ts);
-        vi(&mut out, self.pc);
-        st(&mut out, &mut str_offsets, &self.ck);
-        st(&mut out, &mut str_offsets, &self.em);
-        vi(&mut out, self.tn);
-        st(&mut out, &mut str_offsets, &self.lnt);
+        }
+        st(&mut out, &mut str_offsets, &mut var_offsets, &mut bodies, &self.pid);
+        vi(&mut out, &mut var_offsets, self.idx);
+        vi(&mut out, &mut var_offsets, self.ts);
+        vi(&mut out, &mut var_offsets, self.pc);
+        st(&mut out, &mut str_offsets, &mut var_offsets, &mut bodies, &self.ck);
+        st(&mut out, &mut str_offsets, &mut var_offsets, &mut bodies, &self.em);
+        vi(&mut out, &mut var_offsets, self.tn);
+        st(&mut out, &mut str_offsets, &mut var_offsets, &mut bodies, &self.lnt);
         out.push(self.pp);
-        (out, str_offsets)
+        Layout { bytes: out, str_offsets, var_offsets, bodies }
     }
+}
+
+struct Layout {
+    bytes: Vec<u8>,
+    str_offsets: Vec<usize>,
+    var_offsets: Vec<usize>,
+    bodies: Vec<(usize, usize)>,
 }
 
 fn gen_varint(out: &mut Vec<u8>, v: u64) {
@@ -362,12 +396,14 @@ pub fn child(args: &[String]) -> i32 {
         Some("dec") => {
             let Some(infile) = args.get(1) else { return 2 };
             let start: usize = args.get(2).and_then(|s| s.parse().ok()).unwrap_or(0);
-            let Ok(text) = std::fs::read_to_string(infile) else { return 2 };
+            // streamed: the child's address space is capped far below the size of the case file
+            let Ok(file) = std::fs::File::open(infile) else { return 2 };
             let tmp = tmpdir();
             let m = manager(tmp.path(), None, true);
             let path = tmp.path().join("case.bin");
             let out = std::io::stdout();
-            for (k, line) in text.lines().enumerate().skip(start) {
+            for (k, line) in BufReader::new(file).lines().enumerate().skip(start) {
+                let Ok(line) = line else { return 2 };
                 let Some(bytes) = unhex(line.trim()) else { return 2 };
                 if std::fs::write(&path, &bytes).is_err() {
                     return 2;
@@ -395,6 +431,22 @@ fn run_dec_children(cases: &[DecCase], work: &Path) -> Vec<String> {
         f.flush().unwrap();
     }
     let exe = std::env::current_exe().expect("current_exe");
+    // preflight: under the address-space limit the child must be able to start and load a pristine file
+    {
+        let pre = work.join("dec_preflight.hex");
+        std::fs::write(&pre, format!("{}\n", hex(&short_base_a().gen_encode().0))).expect("preflight file");
+        let out = Command::new("sh")
+            .arg("-c")
+            .arg(format!("ulimit -v {CHILD_AS_LIMIT_KIB} && exec \"$0\" child c12 dec \"$1\" 0"))
+            .arg(&exe)
+            .arg(&pre)
+            .stderr(Stdio::null())
+            .output()
+            .expect("spawn preflight child");
+        let text = String::from_utf8_lossy(&out.stdout);
+        assert!(text.starts_with("0 OK "), "ibh child c12 dec: preflight under ulimit -v {CHILD_AS_LIMIT_KIB} failed ({:?}, {text:?}) - raise CHILD_AS_LIMIT_KIB", out.status);
+        let _ = std::fs::remove_file(&pre);
+    }
     let mut answers: Vec<String> = Vec::with_capacity(cases.len());
     while answers.len() < cases.len() {
         let start = answers.len();
@@ -490,33 +542,115 @@ fn short_base_b() -> St {
         .with_valid_checksum()
 }
 
+/// the remaining exhaustive-fault bases: different lengths and shapes
+fn base_c_empty() -> St {
+    // every string empty, every number 0: the shortest file a save can write (73 bytes)
+    St { pid: String::new(), idx: 0, ts: 0, pc: 0, ck: String::new(), em: String::new(), tn: 0, lnt: String::new(), pp: 0 }.with_valid_checksum()
+}
+fn base_d_extremes() -> St {
+    // numbers at the extremes (9-byte varints), a pipeline id containing ':' '_' and digits
+    St { pid: "a:1_2:".into(), idx: u64::MAX, ts: 1 << 63, pc: 0x1_0000_0000, ck: String::new(), em: ":".into(), tn: 65535, lnt: "0".into(), pp: 251 }
+        .with_valid_checksum()
+}
+fn base_e_medium() -> St {
+    // 251-byte pipeline id (3-byte length prefix), 300 bytes of mixed-width unicode, 70 bytes
+    let pid: String = (0..251).map(|i| (b'a' + (i % 26) as u8) as char).collect();
+    let mut em = String::new();
+    for c in ['x', 'é', '中', '\u{1f600}', '\u{7ff}', '\u{800}', '\u{10ffff}', '~'].iter().cycle() {
+        if em.len() + c.len_utf8() > 300 {
+            break;
+        }
+        em.push(*c);
+    }
+    let lnt: String = (0..70).map(|i| (b'0' + (i % 10) as u8) as char).collect();
+    St { pid, idx: 251, ts: 1_700_000_000_000, pc: 16, ck: String::new(), em, tn: 1000, lnt, pp: 99 }.with_valid_checksum()
+}
+fn base_f_long() -> St {
+    // the property's maximum: a 4096-byte string (and a 1000-byte one)
+    let lnt: String = (0..4096).map(|i| (0x21 + (i * 7 % 0x5e) as u8) as char).collect();
+    let mut em = String::new();
+    for c in ['π', 'a', '\u{ffff}', '\u{10000}'].iter().cycle() {
+        if em.len() + c.len_utf8() > 1000 {
+            break;
+        }
+        em.push(*c);
+    }
+    St { pid: "long".into(), idx: 70000, ts: u64::MAX, pc: 250, ck: String::new(), em, tn: 251, lnt, pp: 100 }.with_valid_checksum()
+}
+
 fn hostile_lengths() -> Vec<u64> {
     vec![
         1 << 63, u64::MAX, (1 << 63) - 1, 1 << 62, 1 << 48, 1 << 40, 1 << 34, 1 << 32, 3 << 30, 1 << 30, // far beyond the child's address-space limit
+        1 << 28, 100 << 20, 1 << 26, // at or beyond the child's address-space limit, far below 2^30
+        16 << 20, 2 << 20, // above the decode limit, below the child's address-space limit
         (1 << 20) + 1, 1 << 20, (1 << 20) - 64, 70000, 65536, 300, 251,
     ]
 }
 
+const OVERWRITE_VALUES: [u8; 19] = [0u8, 1, 0x7f, 0x80, 0xbf, 0xc0, 0xc1, 0xc2, 0xe0, 0xed, 0xf0, 0xf4, 0xf5, 250, 251, 252, 253, 254, 255];
+
+/// byte positions of `l` that get the exhaustive fault treatment: everything for files up to 1 KiB; for longer
+/// files every byte outside the long string bodies plus the first/last 8 bytes and every 97th byte of each body
+fn fault_positions(l: &Layout) -> Vec<usize> {
+    let n = l.bytes.len();
+    if n <= 1024 {
+        return (0..n).collect();
+    }
+    let mut keep = vec![true; n];
+    for &(start, len) in &l.bodies {
+        if len > 64 {
+            for k in 0..len {
+                keep[start + k] = k < 8 || k + 8 >= len || k % 97 == 0;
+            }
+        }
+    }
+    (0..n).filter(|&i| keep[i]).collect()
+}
+
 fn gen_dec_cases(cx: &mut Ctx) -> Vec<DecCase> {
     let mut v: Vec<DecCase> = vec![];
-    let base_a = short_base_a();
-    let base_b = short_base_b();
+    let bases: Vec<(St, &'static str, bool)> = vec![
+        (short_base_a(), "a:78B", true),
+        (short_base_b(), "b:all-varint-widths+1-4-byte-utf8", true),
+        (base_c_empty(), "c:all-empty", true),
+        (base_d_extremes(), "d:extreme-numbers", true),
+        (base_e_medium(), "e:251B-id+300B-unicode", false),
+        (base_f_long(), "f:4096B-string", false),
+    ];
     // (1) corpus / design witnesses
     {
         // DESIGN §8 #8: first length prefix = 2^63
         let mut b = vec![];
         gen_varint(&mut b, 1 << 63);
         v.push(DecCase { bytes: b, base: None, pristine: false, tag: "corpus:len=2^63" });
-        let (enc, offs) = base_a.gen_encode();
-        for (si, &off) in offs.iter().enumerate() {
-            for &l in &hostile_lengths() {
-                let mut b = enc[..off].to_vec();
-                gen_varint(&mut b, l);
-                b.extend_from_slice(&enc[off + varint_len(enc[off])..]);
-                let _ = si;
-                v.push(DecCase { bytes: b, base: Some(base_a.clone()), pristine: false, tag: "corpus:hostile-length" });
+        // a hostile value at EVERY varint position (4 string length prefixes and the 4 numbers) of every base
+        let mut n_host = 0usize;
+        for (base, _, _) in &bases {
+            let l = base.gen_layout();
+            for &off in &l.var_offsets {
+                let is_len = l.str_offsets.contains(&off);
+                for &h in &hostile_lengths() {
+                    let mut b = l.bytes[..off].to_vec();
+                    gen_varint(&mut b, h);
+                    b.extend_from_slice(&l.bytes[off + varint_len(l.bytes[off])..]);
+                    if b == l.bytes {
+                        continue;
+                    }
+                    v.push(DecCase {
+                        bytes: b,
+                        base: Some(base.clone()),
+                        pristine: false,
+                        tag: if is_len { "corpus:hostile-length" } else { "corpus:hostile-number" },
+                    });
+                    n_host += 1;
+                }
             }
         }
+        cx.exhaustive_blocks.push(format!(
+            "CKPT-DEC: {} hostile values (2^63, 2^64-1, 2^62 .. 2^20+1, 2^20, 70000, 65536, 300, 251) planted at EVERY varint position (4 length prefixes + 4 numbers) of {} encoded states = {n_host} files",
+            hostile_lengths().len(),
+            bases.len()
+        ));
         v.push(DecCase { bytes: vec![], base: None, pristine: false, tag: "corpus:empty" });
         for m in 251..=255u8 {
             v.push(DecCase { bytes: vec![m], base: None, pristine: false, tag: "corpus:lonely-marker" });
@@ -524,32 +658,46 @@ fn gen_dec_cases(cx: &mut Ctx) -> Vec<DecCase> {
             v.push(DecCase { bytes: vec![1, b'p', m, 0, 0, 0, 0, 0, 0, 0, 0, 0, 0, 0, 0, 0], base: None, pristine: false, tag: "corpus:marker-in-u64" });
         }
     }
-    // (2) exhaustive single-fault block over two short states
+    // (2) exhaustive single-fault block over six states of different lengths
     let mut n_exh = 0usize;
-    for base in [&base_a, &base_b] {
-        let (enc, _) = base.gen_encode();
+    let mut desc: Vec<String> = vec![];
+    for (base, name, overwrites) in &bases {
+        let l = base.gen_layout();
+        let enc = &l.bytes;
+        let pos = fault_positions(&l);
+        let before = n_exh;
         v.push(DecCase { bytes: enc.clone(), base: Some(base.clone()), pristine: true, tag: "exh:pristine" });
-        for i in 0..enc.len() {
+        for &i in &pos {
             for bit in 0..8 {
                 let mut b = enc.clone();
                 b[i] ^= 1 << bit;
                 v.push(DecCase { bytes: b, base: Some(base.clone()), pristine: false, tag: "exh:bitflip" });
                 n_exh += 1;
             }
-            for val in [0u8, 1, 0x7f, 0x80, 0xbf, 0xc0, 0xc1, 0xc2, 0xe0, 0xed, 0xf0, 0xf4, 0xf5, 250, 251, 252, 253, 254, 255] {
-                if enc[i] != val {
-                    let mut b = enc.clone();
-                    b[i] = val;
-                    v.push(DecCase { bytes: b, base: Some(base.clone()), pristine: false, tag: "exh:overwrite" });
-                    n_exh += 1;
+            if *overwrites {
+                for val in OVERWRITE_VALUES {
+                    if enc[i] != val {
+                        let mut b = enc.clone();
+                        b[i] = val;
+                        v.push(DecCase { bytes: b, base: Some(base.clone()), pristine: false, tag: "exh:overwrite" });
+                        n_exh += 1;
+                    }
                 }
             }
             v.push(DecCase { bytes: enc[..i].to_vec(), base: Some(base.clone()), pristine: false, tag: "exh:truncate" });
             n_exh += 1;
         }
+        desc.push(format!(
+            "{name} ({} bytes, {} positions{}: {} files)",
+            enc.len(),
+            pos.len(),
+            if *overwrites { ", + 19 overwrite values" } else { "" },
+            n_exh - before
+        ));
     }
     cx.exhaustive_blocks.push(format!(
-        "CKPT-DEC: every single-bit flip, every truncation and 19 overwrite values at every byte of two short encoded states (all varint widths, 1-4 byte UTF-8) = {n_exh} files"
+        "CKPT-DEC: every single-bit flip and every truncation at every byte position of six encoded states of different lengths (for the > 1 KiB file: every byte outside the long string bodies, the first/last 8 and every 97th byte of each body), plus 19 overwrite values per byte on the four short ones = {n_exh} files: {}",
+        desc.join("; ")
     ));
     // (3) random block
     let rounds = cx.budget(6000, 150000);
@@ -561,7 +709,8 @@ fn gen_dec_cases(cx: &mut Ctx) -> Vec<DecCase> {
             _ => 24,
         };
         let st = rand_state(&mut cx.rng, max_str, false, big);
-        let (enc, offs) = st.gen_encode();
+        let lay = st.gen_layout();
+        let (enc, offs) = (lay.bytes.clone(), lay.var_offsets.clone());
         let kind = cx.rng.below(13);
         let (bytes, pristine, tag): (Vec<u8>, bool, &'static str) = match kind {
             0 => (enc.clone(), true, "rnd:pristine"),
@@ -602,13 +751,13 @@ fn gen_dec_cases(cx: &mut Ctx) -> Vec<DecCase> {
                 (b, false, "rnd:trailing-garbage")
             }
             8 => {
-                // hostile / random length prefix at a string position
+                // hostile / random value at ANY varint position (length prefixes and numbers)
                 let off = offs[cx.rng.below(offs.len())];
                 let l = if cx.rng.chance(1, 2) { *cx.rng.pick(&hostile_lengths()) } else { rand_num(&mut cx.rng) };
                 let mut b = enc[..off].to_vec();
                 gen_varint(&mut b, l);
                 b.extend_from_slice(&enc[off + varint_len(enc[off])..]);
-                (b, false, "rnd:length-prefix")
+                if b == enc { (b, true, "rnd:pristine") } else { (b, false, "rnd:varint-replaced") }
             }
             9 => {
                 // non-canonical (wider) varint for the same value: fields unchanged, must still load
@@ -700,15 +849,52 @@ fn run_dec(cx: &mut Ctx) {
 
 // ───────────────────────────── histories ─────────────────────────────
 
-fn listing(dir: &Path) -> Vec<String> {
-    let mut v: Vec<String> = std::fs::read_dir(dir)
-        .map(|rd| rd.filter_map(Result::ok).filter_map(|e| e.file_name().to_str().map(str::to_string)).collect())
+/// directory listing with contents, sorted bytewise by name
+fn listing_c(dir: &Path) -> Vec<(String, Vec<u8>)> {
+    let mut v: Vec<(String, Vec<u8>)> = std::fs::read_dir(dir)
+        .map(|rd| {
+            rd.filter_map(Result::ok)
+                .filter(|e| !e.path().is_dir())
+                .filter_map(|e| e.file_name().to_str().map(str::to_string))
+                .map(|n| {
+                    let c = std::fs::read(dir.join(&n)).unwrap_or_default();
+                    (n, c)
+                })
+                .collect()
+        })
         .unwrap_or_default();
-    v.sort_by(|a, b| a.as_bytes().cmp(b.as_bytes()));
+    v.sort_by(|a, b| a.0.as_bytes().cmp(b.0.as_bytes()));
     v
+}
+/// sub-DIRECTORIES of the checkpoint directory (sorted). A directory is never a checkpoint, whatever its name: the
+/// listings given to the model contain regular files only, and every operation must leave the directories alone.
+fn subdirs(dir: &Path) -> Vec<String> {
+    let mut v: Vec<String> = std::fs::read_dir(dir)
+        .map(|rd| rd.filter_map(Result::ok).filter(|e| e.path().is_dir()).filter_map(|e| e.file_name().to_str().map(str::to_string)).collect())
+        .unwrap_or_default();
+    v.sort();
+    v
+}
+fn dirs_oracle(cx: &mut Ctx, i: usize, before: &[String], after: &[String]) {
+    if before != after {
+        cx.oracle_fail(i, "operation-removes-or-creates-a-directory", format!("directories before {before:?} after {after:?}"));
+    }
+}
+fn names_of(v: &[(String, Vec<u8>)]) -> Vec<String> {
+    v.iter().map(|x| x.0.clone()).collect()
 }
 fn enc_names(v: &[String]) -> String {
     if v.is_empty() { "-".into() } else { v.iter().map(|n| hex(n.as_bytes())).collect::<Vec<_>>().join(",") }
+}
+/// `<hex name>` or `<hex name>:<hex content>` per file
+fn enc_dir(v: &[(String, Vec<u8>)], with_content: bool) -> String {
+    if v.is_empty() {
+        return "-".into();
+    }
+    v.iter()
+        .map(|(n, c)| if with_content { format!("{}:{}", hex(n.as_bytes()), hex(c)) } else { hex(n.as_bytes()) })
+        .collect::<Vec<_>>()
+        .join(",")
 }
 /// the oracle's definition of "a well-formed checkpoint file of pipeline `pid`" and its stamp
 fn own_stamp(pid: &str, name: &str) -> Option<u64> {
@@ -758,62 +944,63 @@ fn foreign_for(pid: &str) -> Vec<String> {
     v
 }
 
-fn hist_state(pid: &str, ts: u64) -> CheckpointState {
+fn hist_st(pid: &str, ts: u64) -> St {
     St { pid: pid.into(), idx: 1, ts, pc: 1, ck: String::new(), em: "sequential".into(), tn: 3, lnt: "Stateless".into(), pp: 33 }
         .with_valid_checksum()
-        .to_real()
 }
 fn max_str(m: Option<usize>) -> String {
     m.map_or("none".into(), |x| x.to_string())
 }
 
-fn op_save(cx: &mut Ctx, dir: &Path, pid: &str, ts: u64, max: Option<usize>) {
-    let before = listing(dir);
+/// oracle shared by CKPT-SAVE / CKPT-SLL: what a save of `st` (file `new_name`) may do to a directory
+#[allow(clippy::too_many_arguments)]
+fn save_oracle(
+    cx: &mut Ctx,
+    i: usize,
+    st: &St,
+    max: Option<usize>,
+    before: &[(String, Vec<u8>)],
+    after: &[(String, Vec<u8>)],
+    own_all: &[(u64, String)],
+) {
+    let pid = st.pid.as_str();
+    let ts = st.ts;
     let new_name = format!("checkpoint_{pid}_{ts}.bin");
-    let mut own_all = own_files(pid, &before);
-    if !before.contains(&new_name) {
-        own_all.push((ts, new_name.clone()));
-    }
-    if has_tie(&own_all) {
-        cx.count("hist:skipped(tie between two spellings of one stamp)");
-        return;
-    }
-    let state = hist_state(pid, ts);
-    let r = guarded(|| {
-        let mut m = manager(dir, max, true);
-        m.save_checkpoint(&state).map(|_| ())
-    });
-    let after = listing(dir);
-    let answer = match &r {
-        Err(_) => "PANIC".to_string(),
-        Ok(Err(_)) => "ERR save".to_string(),
-        Ok(Ok(())) => format!("OK {}", enc_names(&after)),
-    };
-    let i = cx.case(
-        format!("CKPT-SAVE max={} pid={} ts={} dir={}", max_str(max), hex(pid.as_bytes()), ts, enc_names(&before)),
-        answer.clone(),
-        before.len() >= 2,
-    );
-    cx.count(&format!("hist:save:max={}", max_str(max)));
-    if !matches!(r, Ok(Ok(()))) {
-        cx.oracle_fail(i, "save-fails-or-panics", answer);
-        return;
-    }
-    // oracle: foreign / other pipelines' files untouched
-    let foreign_before: Vec<&String> = before.iter().filter(|n| own_stamp(pid, n).is_none() && **n != new_name).collect();
-    for n in &foreign_before {
-        if !after.contains(n) {
-            cx.oracle_fail(i, "save-deletes-file-of-other-pipeline-or-foreign-file", format!("saving pid {pid:?} ts {ts} max {max:?} removed {n:?}"));
+    let after_names = names_of(after);
+    let before_names = names_of(before);
+    // foreign / other pipelines' files untouched (name and content)
+    for (n, c) in before {
+        if *n == new_name {
+            continue;
+        }
+        match after.iter().find(|x| x.0 == *n) {
+            None => {
+                if own_stamp(pid, n).is_none() {
+                    cx.oracle_fail(i, "save-deletes-file-of-other-pipeline-or-foreign-file", format!("saving pid {pid:?} ts {ts} max {max:?} removed {n:?}"));
+                }
+            }
+            Some((_, c2)) => {
+                if c2 != c {
+                    cx.oracle_fail(i, "save-changes-content-of-another-file", format!("saving pid {pid:?} ts {ts} changed the bytes of {n:?}"));
+                }
+            }
         }
     }
-    for n in &after {
-        if !before.contains(n) && *n != new_name {
+    for n in &after_names {
+        if !before_names.contains(n) && *n != new_name {
             cx.oracle_fail(i, "save-creates-unexpected-file", n.clone());
         }
     }
-    // oracle: bounded retention, newest kept
-    let kept = own_files(pid, &after);
-    let dropped: Vec<&(u64, String)> = own_all.iter().filter(|x| !after.contains(&x.1)).collect();
+    // the file just written holds the encoding of the state (generator-side bincode layout, itself compared with
+    // the real bytes by every CKPT-ENC case)
+    if let Some((_, c)) = after.iter().find(|x| x.0 == new_name) {
+        if *c != st.gen_encode().0 {
+            cx.oracle_fail(i, "saved-file-content-is-not-the-encoding", format!("{new_name}: {} bytes", c.len()));
+        }
+    }
+    // bounded retention, newest kept (ties between two spellings of one stamp allowed: `>` is strict)
+    let kept = own_files(pid, &after_names);
+    let dropped: Vec<&(u64, String)> = own_all.iter().filter(|x| !after_names.contains(&x.1)).collect();
     match max {
         None => {
             if !dropped.is_empty() {
@@ -839,36 +1026,216 @@ fn op_save(cx: &mut Ctx, dir: &Path, pid: &str, ts: u64, max: Option<usize>) {
     }
 }
 
-fn op_latest(cx: &mut Ctx, dir: &Path, pid: &str, enabled: bool) {
-    let names = listing(dir);
-    let own = own_files(pid, &names);
-    if has_tie(&own) {
-        cx.count("hist:skipped(tie between two spellings of one stamp)");
+/// One real `save_checkpoint` in `dir`. `with_content`: the request carries every file's bytes and the answer the
+/// bytes of every file that is left (the model's file system then holds real contents), else names only.
+/// When two spellings of one stamp (`7` / `07`) are present the survivor depends on `read_dir` order; the save is
+/// still executed and judged, and compared with the model on order-independent facts (`CKPT-SAVE-TIE`).
+fn op_save(cx: &mut Ctx, dir: &Path, pid: &str, ts: u64, max: Option<usize>, with_content: bool) {
+    let dirs_before = subdirs(dir);
+    let before = listing_c(dir);
+    let before_names = names_of(&before);
+    let new_name = format!("checkpoint_{pid}_{ts}.bin");
+    if dirs_before.contains(&new_name) {
+        // the file system refuses to create a file where a directory is: not a situation the property speaks about
+        cx.count("hist:skipped(a directory has the name of the file to be saved)");
         return;
     }
+    let mut own_all = own_files(pid, &before_names);
+    if !before_names.contains(&new_name) {
+        own_all.push((ts, new_name.clone()));
+    }
+    let tie = has_tie(&own_all);
+    let st = hist_st(pid, ts);
+    let state = st.to_real();
+    let r = guarded(|| {
+        let mut m = manager(dir, max, true);
+        m.save_checkpoint(&state).map(|_| ())
+    });
+    let after = listing_c(dir);
+    let after_names = names_of(&after);
+    let ok = matches!(r, Ok(Ok(())));
+    let i = if tie {
+        let other: Vec<String> = after_names.iter().filter(|n| own_stamp(pid, n).is_none()).cloned().collect();
+        let answer = match &r {
+            Err(_) => "PANIC".to_string(),
+            Ok(Err(_)) => "ERR save".to_string(),
+            Ok(Ok(())) => format!("OK own={} other={}", own_files(pid, &after_names).len(), enc_names(&other)),
+        };
+        cx.count("hist:save:tie(two spellings of one stamp)");
+        cx.case(
+            format!("CKPT-SAVE-TIE max={} pid={} ts={} dir={}", max_str(max), hex(pid.as_bytes()), ts, enc_names(&before_names)),
+            answer,
+            true,
+        )
+    } else {
+        let answer = match &r {
+            Err(_) => "PANIC".to_string(),
+            Ok(Err(_)) => "ERR save".to_string(),
+            Ok(Ok(())) => format!("OK {}", enc_dir(&after, with_content)),
+        };
+        cx.count(if with_content { "hist:save:with-file-contents" } else { "hist:save:names-only" });
+        cx.case(
+            format!(
+                "CKPT-SAVE max={} c={} dir={} {}",
+                max_str(max),
+                if with_content { "T" } else { "F" },
+                enc_dir(&before, with_content),
+                st.fields()
+            ),
+            answer,
+            before.len() >= 2,
+        )
+    };
+    cx.count(&format!("hist:save:max={}", max_str(max)));
+    if !ok {
+        cx.oracle_fail(i, "save-fails-or-panics", format!("pid {pid:?} ts {ts}"));
+        return;
+    }
+    save_oracle(cx, i, &st, max, &before, &after, &own_all);
+    dirs_oracle(cx, i, &dirs_before, &subdirs(dir));
+}
+
+/// save ; find_latest ; load on the REAL code, in a directory with arbitrary other files
+fn op_sll(cx: &mut Ctx, dir: &Path, st: &St, max: Option<usize>) {
+    let pid = st.pid.as_str();
+    let dirs_before = subdirs(dir);
+    let before = listing_c(dir);
+    let before_names = names_of(&before);
+    let new_name = format!("checkpoint_{pid}_{}.bin", st.ts);
+    if dirs_before.contains(&new_name) {
+        cx.count("hist:skipped(a directory has the name of the file to be saved)");
+        return;
+    }
+    let mut own_all = own_files(pid, &before_names);
+    if !before_names.contains(&new_name) {
+        own_all.push((st.ts, new_name.clone()));
+    }
+    if has_tie(&own_all) {
+        cx.count("sll:skipped(tie between two spellings of one stamp)");
+        return;
+    }
+    let state = st.to_real();
+    let r = guarded(|| -> anyhow::Result<Option<std::path::PathBuf>> {
+        let mut m = manager(dir, max, true);
+        m.save_checkpoint(&state)?;
+        m.find_latest_checkpoint(pid)
+    });
+    let after = listing_c(dir);
+    let (answer, latest, la): (String, Option<Option<String>>, Option<String>) = match &r {
+        Err(_) => ("PANIC".into(), None, None),
+        Ok(Err(_)) => ("ERR save-or-latest".into(), None, None),
+        Ok(Ok(None)) => ("OK latest=none".into(), Some(None), None),
+        Ok(Ok(Some(p))) => {
+            let name = p.file_name().and_then(|n| n.to_str()).unwrap_or("?").to_string();
+            let m = manager(dir, max, true);
+            let la = load_answer(guarded(|| m.load_checkpoint(p)));
+            (format!("OK latest={} | {}", hex(name.as_bytes()), la), Some(Some(name)), Some(la))
+        }
+    };
+    let i = cx.case(format!("CKPT-SLL max={} dir={} {}", max_str(max), enc_dir(&before, true), st.fields()), answer.clone(), true);
+    cx.count(&format!("sll:max={}", max_str(max)));
+    let Some(latest) = latest else {
+        cx.oracle_fail(i, "save-or-latest-fails-or-panics", answer);
+        return;
+    };
+    save_oracle(cx, i, st, max, &before, &after, &own_all);
+    dirs_oracle(cx, i, &dirs_before, &subdirs(dir));
+    if let Some(n) = &latest {
+        if dirs_before.contains(n) {
+            cx.oracle_fail(i, "latest-returns-a-directory", n.clone());
+            return;
+        }
+    }
+    let want: Option<(u64, String)> = if max == Some(0) { None } else { own_all.iter().max_by_key(|x| x.0).cloned() };
+    if latest != want.as_ref().map(|x| x.1.clone()) {
+        cx.oracle_fail(i, "latest-after-save-is-not-greatest-timestamp", format!("latest({pid:?}) = {latest:?}, expected {want:?}"));
+        return;
+    }
+    let (Some((wts, wname)), Some(la)) = (want, la) else {
+        cx.count("sll:latest=none");
+        return;
+    };
+    if wname == new_name {
+        cx.count("sll:latest-is-the-new-file");
+        let valid = st.ck == compute_checksum(st.meta_string().as_bytes());
+        if valid && la != format!("OK {}", st.fields()) {
+            cx.oracle_fail(i, "save-latest-load-not-field-for-field", format!("saved {} loaded {}", st.fields(), la));
+        }
+        if !valid && !la.starts_with("ERR") {
+            cx.oracle_fail(i, "wrong-checksum-accepted", la);
+        }
+    } else {
+        cx.count("sll:latest-is-an-older-file");
+        if let Some(rest) = la.strip_prefix("OK ") {
+            let toks: Vec<&str> = rest.split(' ').collect();
+            match parse_fields(&toks) {
+                Some(got) => {
+                    if got.ck != compute_checksum(got.meta_string().as_bytes()) {
+                        cx.oracle_fail(i, "accepted-state-with-wrong-checksum", la.clone());
+                    }
+                    // every checkpoint file in these directories was written by a real save under its own name
+                    if got.pid != pid || got.ts != wts {
+                        cx.oracle_fail(i, "latest-file-holds-another-checkpoint", format!("{wname}: {}", got.fields()));
+                    }
+                }
+                None => cx.oracle_fail(i, "unparsable-real-answer", la.clone()),
+            }
+        } else if la == "PANIC" {
+            cx.oracle_fail(i, "load-panics-on-malformed-bytes", wname);
+        }
+    }
+}
+
+fn op_latest(cx: &mut Ctx, dir: &Path, pid: &str, enabled: bool) {
+    let names = names_of(&listing_c(dir));
+    let own = own_files(pid, &names);
+    let tie = has_tie(&own);
     let r = guarded(|| manager(dir, Some(3), enabled).find_latest_checkpoint(pid));
     let got: Option<Option<String>> = match &r {
         Ok(Ok(p)) => Some(p.as_ref().and_then(|p| p.file_name()).and_then(|n| n.to_str()).map(str::to_string)),
         _ => None,
     };
-    let answer = match (&r, &got) {
-        (Err(_), _) => "PANIC".to_string(),
-        (Ok(Err(_)), _) => "ERR latest".to_string(),
-        (_, Some(Some(n))) => format!("SOME {}", hex(n.as_bytes())),
-        _ => "NONE".to_string(),
+    let i = if tie {
+        // which of two spellings of the greatest stamp is returned depends on `read_dir` order: compare the stamp
+        let answer = match (&r, &got) {
+            (Err(_), _) => "PANIC".to_string(),
+            (Ok(Err(_)), _) => "ERR latest".to_string(),
+            (_, Some(Some(n))) => own_stamp(pid, n).map_or(format!("FOREIGN {}", hex(n.as_bytes())), |t| format!("STAMP {t}")),
+            _ => "NONE".to_string(),
+        };
+        cx.count("hist:latest:tie(two spellings of one stamp)");
+        cx.case(
+            format!("CKPT-LATEST-TIE en={} pid={} dir={}", if enabled { "T" } else { "F" }, hex(pid.as_bytes()), enc_names(&names)),
+            answer,
+            true,
+        )
+    } else {
+        let answer = match (&r, &got) {
+            (Err(_), _) => "PANIC".to_string(),
+            (Ok(Err(_)), _) => "ERR latest".to_string(),
+            (_, Some(Some(n))) => format!("SOME {}", hex(n.as_bytes())),
+            _ => "NONE".to_string(),
+        };
+        cx.count(&format!("hist:latest:{}", answer.split(' ').next().unwrap_or("?")));
+        cx.case(
+            format!("CKPT-LATEST en={} pid={} dir={}", if enabled { "T" } else { "F" }, hex(pid.as_bytes()), enc_names(&names)),
+            answer,
+            names.len() >= 2,
+        )
     };
-    let i = cx.case(
-        format!("CKPT-LATEST en={} pid={} dir={}", if enabled { "T" } else { "F" }, hex(pid.as_bytes()), enc_names(&names)),
-        answer.clone(),
-        names.len() >= 2,
-    );
-    cx.count(&format!("hist:latest:{}", answer.split(' ').next().unwrap_or("?")));
-    let want: Option<String> = if enabled { own.iter().max_by_key(|x| x.0).map(|x| x.1.clone()) } else { None };
+    let want: Option<(u64, String)> = if enabled { own.iter().max_by_key(|x| x.0).cloned() } else { None };
     match got {
-        None => cx.oracle_fail(i, "latest-fails-or-panics", answer),
+        None => cx.oracle_fail(i, "latest-fails-or-panics", format!("{pid:?}")),
         Some(g) => {
-            if g != want {
+            let same = if tie {
+                g.as_ref().and_then(|n| own_stamp(pid, n)) == want.as_ref().map(|x| x.0) && g.is_some() == want.is_some()
+            } else {
+                g == want.as_ref().map(|x| x.1.clone())
+            };
+            if !same {
+                let dirs = subdirs(dir);
                 let sig = match (&g, &want) {
+                    (Some(n), _) if dirs.contains(n) => "latest-returns-a-directory",
                     (Some(n), _) if own_stamp(pid, n).is_none() => "latest-returns-foreign-or-other-pipelines-file",
                     (Some(_), Some(_)) => "latest-is-not-greatest-timestamp",
                     (None, Some(_)) => "latest-misses-existing-checkpoint",
@@ -881,9 +1248,12 @@ fn op_latest(cx: &mut Ctx, dir: &Path, pid: &str, enabled: bool) {
 }
 
 fn op_clear(cx: &mut Ctx, dir: &Path, pid: &str) {
-    let before = listing(dir);
+    let dirs_before = subdirs(dir);
+    let before_c = listing_c(dir);
+    let before = names_of(&before_c);
     let r = guarded(|| manager(dir, Some(3), true).clear_checkpoints(pid));
-    let after = listing(dir);
+    let after_c = listing_c(dir);
+    let after = names_of(&after_c);
     let answer = match &r {
         Err(_) => "PANIC".to_string(),
         Ok(Err(_)) => "ERR clear".to_string(),
@@ -895,17 +1265,32 @@ fn op_clear(cx: &mut Ctx, dir: &Path, pid: &str) {
         cx.oracle_fail(i, "clear-fails-or-panics", answer);
         return;
     }
-    for n in &before {
+    for (n, c) in &before_c {
         let own = own_stamp(pid, n).is_some();
-        if own && after.contains(n) {
+        let left = after_c.iter().find(|x| x.0 == *n);
+        if own && left.is_some() {
             cx.oracle_fail(i, "clear-leaves-own-checkpoint", n.clone());
         }
-        if !own && !after.contains(n) {
+        if !own && left.is_none() {
             cx.oracle_fail(i, "clear-deletes-file-of-other-pipeline-or-foreign-file", format!("clear({pid:?}) removed {n:?}"));
         }
+        if let Some((_, c2)) = left {
+            if c2 != c {
+                cx.oracle_fail(i, "clear-changes-content-of-another-file", n.clone());
+            }
+        }
     }
+    for n in &after {
+        if !before.contains(n) {
+            cx.oracle_fail(i, "clear-creates-a-file", n.clone());
+        }
+    }
+    dirs_oracle(cx, i, &dirs_before, &subdirs(dir));
 }
 
+fn place_dir(dir: &Path, name: &str) {
+    let _ = std::fs::create_dir(dir.join(name));
+}
 fn place(dir: &Path, name: &str) {
     let _ = std::fs::write(dir.join(name), b"foreign");
 }
@@ -918,27 +1303,68 @@ fn rand_ts(rng: &mut Rng) -> u64 {
     }
 }
 
+/// a state for the save ; latest ; load composition: pipeline id given (it decides which files interact),
+/// everything else random (unicode strings, numbers at the extremes)
+fn sll_state(rng: &mut Rng, pid: &str, ts: u64) -> St {
+    let max_str = if rng.chance(1, 8) { 4096 } else { 40 };
+    let mut st = rand_state(rng, max_str, true, false);
+    st.pid = pid.to_string();
+    st.ts = ts;
+    st.with_valid_checksum()
+}
+
 fn run_hist(cx: &mut Ctx) {
     // (1) design witnesses (DESIGN §8 #9)
     {
         let tmp = tmpdir();
         place(tmp.path(), "checkpoint_p_x_50.bin");
         for ts in [60u64, 70, 80] {
-            op_save(cx, tmp.path(), "p", ts, Some(2));
+            op_save(cx, tmp.path(), "p", ts, Some(2), true);
         }
         let tmp2 = tmpdir();
         place(tmp2.path(), "checkpoint_q_garbage.bin");
         op_latest(cx, tmp2.path(), "q", true);
-        op_save(cx, tmp2.path(), "q", 5, Some(1));
+        op_save(cx, tmp2.path(), "q", 5, Some(1), true);
         op_latest(cx, tmp2.path(), "q", true);
         op_clear(cx, tmp2.path(), "q");
         // out-of-order stamps, one pipeline
         let tmp3 = tmpdir();
         for ts in [50u64, 10, 40, 20, 30, 9, 100] {
-            op_save(cx, tmp3.path(), "p", ts, Some(3));
+            op_save(cx, tmp3.path(), "p", ts, Some(3), true);
             op_latest(cx, tmp3.path(), "p", true);
         }
         op_latest(cx, tmp3.path(), "p", false);
+        // save ; latest ; load: newer than everything, older than everything, in between, re-save of an existing
+        // stamp, retention 0 / 1 / none, another pipeline's and foreign files present
+        place(tmp3.path(), "checkpoint_p_x_500.bin");
+        place(tmp3.path(), "checkpoint_p_garbage.bin");
+        for (ts, max) in [(200u64, Some(3usize)), (1, Some(3)), (150, Some(2)), (150, Some(2)), (u64::MAX, Some(1)), (7, Some(0)), (8, None), (0, Some(1))] {
+            let mut st = short_base_b();
+            st.pid = "p".into();
+            st.ts = ts;
+            op_sll(cx, tmp3.path(), &st.with_valid_checksum(), max);
+        }
+        // a DIRECTORY that carries a well-formed checkpoint name is not a checkpoint: it is neither counted nor
+        // returned (before the `fix:` a save with max=1 deleted the file it had just written and latest was the directory)
+        let tmp5 = tmpdir();
+        place_dir(tmp5.path(), "checkpoint_p_9.bin");
+        op_latest(cx, tmp5.path(), "p", true);
+        op_save(cx, tmp5.path(), "p", 5, Some(1), true);
+        op_latest(cx, tmp5.path(), "p", true);
+        op_sll(cx, tmp5.path(), &hist_st("p", 6), Some(1));
+        op_save(cx, tmp5.path(), "p", 7, Some(0), true);
+        place_dir(tmp5.path(), "checkpoint_p_1.bin");
+        op_sll(cx, tmp5.path(), &hist_st("p", 3), Some(2));
+        op_clear(cx, tmp5.path(), "p");
+        // two spellings of one stamp: the save is executed and judged, the model compared on order-independent facts
+        let tmp4 = tmpdir();
+        place(tmp4.path(), "checkpoint_p_07.bin");
+        op_save(cx, tmp4.path(), "p", 7, Some(1), true);
+        op_latest(cx, tmp4.path(), "p", true);
+        place(tmp4.path(), "checkpoint_p_007.bin");
+        op_save(cx, tmp4.path(), "p", 3, Some(2), true);
+        op_latest(cx, tmp4.path(), "p", true);
+        op_save(cx, tmp4.path(), "p", 9, Some(0), true);
     }
     // (1b) every look-alike name, alone and all together, for several pipeline ids
     let mut n_look = 0usize;
@@ -948,9 +1374,11 @@ fn run_hist(cx: &mut Ctx) {
             let tmp = tmpdir();
             place(tmp.path(), f);
             op_latest(cx, tmp.path(), pid, true);
-            op_save(cx, tmp.path(), pid, 1, Some(0));
-            op_save(cx, tmp.path(), pid, 7, Some(1));
+            op_save(cx, tmp.path(), pid, 1, Some(0), true);
+            op_save(cx, tmp.path(), pid, 7, Some(1), true);
             op_latest(cx, tmp.path(), pid, true);
+            let st = sll_state(&mut cx.rng, pid, 8);
+            op_sll(cx, tmp.path(), &st, Some(1));
             op_clear(cx, tmp.path(), pid);
             n_look += 1;
         }
@@ -959,18 +1387,21 @@ fn run_hist(cx: &mut Ctx) {
             place(tmp.path(), f);
         }
         for (ts, max) in [(5u64, Some(2usize)), (3, Some(2)), (9, Some(2)), (4, Some(1)), (2, Some(0)), (6, None)] {
-            op_save(cx, tmp.path(), pid, ts, max);
+            op_save(cx, tmp.path(), pid, ts, max, true);
             op_latest(cx, tmp.path(), pid, true);
         }
+        let st = sll_state(&mut cx.rng, pid, 7);
+        op_sll(cx, tmp.path(), &st, Some(2));
         op_clear(cx, tmp.path(), pid);
     }
     cx.exhaustive_blocks.push(format!(
-        "CKPT-HIST: each of the look-alike file names (non-numeric / signed / overflowing / upper-case / nested stamps, other pipelines extending the id, ...) alone in a directory x 5 pipeline ids: latest, save max=0, save max=1, latest, clear ({n_look} directories), plus all of them together under a 6-save history"
+        "CKPT-HIST: each of the look-alike file names (non-numeric / signed / overflowing / upper-case / nested stamps, other pipelines extending the id, ...) alone in a directory x 5 pipeline ids: latest, save max=0, save max=1, latest, save;latest;load, clear ({n_look} directories, file contents carried), plus all of them together under a 6-save history"
     ));
     // (2) exhaustive small scope: all save histories of length <= L over 2 pids x 3 stamps, every max in {None,0,1,2}
     let len = if cx.tier == crate::ctx::Tier::Quick { 4 } else { 5 };
     let alphabet: Vec<(&str, u64)> = vec![("p", 1), ("p", 2), ("p", 10), ("p_x", 1), ("p_x", 2), ("p_x", 10)];
     let mut count = 0usize;
+    let mut n_sll = 0usize;
     for max in [None, Some(0usize), Some(1), Some(2)] {
         let mut idx = vec![0usize; len];
         'outer: loop {
@@ -983,10 +1414,17 @@ fn run_hist(cx: &mut Ctx) {
                 place(tmp.path(), "checkpoint_p_zz.bin");
                 for &k in &idx[..l] {
                     let (pid, ts) = alphabet[k];
-                    op_save(cx, tmp.path(), pid, ts, max);
+                    // file contents travel with the short histories (the long ones are the bulk: names only)
+                    op_save(cx, tmp.path(), pid, ts, max, l <= 3);
                 }
                 op_latest(cx, tmp.path(), "p", true);
                 op_latest(cx, tmp.path(), "p_x", true);
+                if l <= 3 {
+                    // then save ; latest ; load of a state that is newer (5) / older (0) than some of what is there
+                    let (pid, ts) = if count % 2 == 0 { ("p", 5) } else { ("p_x", 0) };
+                    op_sll(cx, tmp.path(), &hist_st(pid, ts), max);
+                    n_sll += 1;
+                }
                 count += 1;
             }
             let mut j = 0;
@@ -1004,8 +1442,65 @@ fn run_hist(cx: &mut Ctx) {
         }
     }
     cx.exhaustive_blocks.push(format!(
-        "CKPT-HIST: all save histories of length <= {len} over pipelines {{p, p_x}} x stamps {{1,2,10}} with a foreign file present, max in {{None,0,1,2}}, latest of both pipelines after each ({count} histories)"
+        "CKPT-HIST: all save histories of length <= {len} over pipelines {{p, p_x}} x stamps {{1,2,10}} with a foreign file present, max in {{None,0,1,2}}, latest of both pipelines after each ({count} histories; those of length <= 3 with file contents and followed by a real save;latest;load: {n_sll})"
     ));
+    // (2b) save ; latest ; load of random states (unicode, extremes) into small random directories
+    let rounds = cx.budget(300, 6000);
+    for _ in 0..rounds {
+        let tmp = tmpdir();
+        let dir = tmp.path();
+        let pid = *cx.rng.pick(HIST_PIDS);
+        let max = *cx.rng.pick(&[None, Some(0usize), Some(1), Some(2), Some(3)]);
+        for _ in 0..cx.rng.below(3) {
+            let look = foreign_for(pid);
+            let f: String = cx.rng.pick(&look[..]).clone();
+            place(dir, &f);
+        }
+        for _ in 0..cx.rng.below(4) {
+            let other = if cx.rng.chance(2, 3) { pid } else { *cx.rng.pick(HIST_PIDS) };
+            let ts = rand_ts(&mut cx.rng);
+            op_save(cx, dir, other, ts, max, true);
+        }
+        for _ in 0..1 + cx.rng.below(3) {
+            let ts = rand_ts(&mut cx.rng);
+            let mut st = sll_state(&mut cx.rng, pid, ts);
+            if cx.rng.chance(1, 12) {
+                st.ck = rand_string(&mut cx.rng, 70, false, false);
+            }
+            op_sll(cx, dir, &st, max);
+        }
+    }
+    // (2c) two spellings of one stamp (`7`, `07`, `007`): the saves and look-ups are executed and judged by the
+    // oracle (bound, newest kept up to ties, foreign files untouched, latest has the greatest stamp); the model is
+    // compared on the order-independent facts
+    let rounds = cx.budget(150, 3000);
+    for _ in 0..rounds {
+        let tmp = tmpdir();
+        let dir = tmp.path();
+        let pid = *cx.rng.pick(HIST_PIDS);
+        let mut max = *cx.rng.pick(&[None, Some(0usize), Some(1), Some(2), Some(3)]);
+        for _ in 0..1 + cx.rng.below(3) {
+            let zeros = "0".repeat(1 + cx.rng.below(2));
+            let t = cx.rng.below(5);
+            place(dir, &format!("checkpoint_{pid}_{zeros}{t}.bin"));
+        }
+        if cx.rng.chance(1, 2) {
+            let look = foreign_for(pid);
+            let f: String = cx.rng.pick(&look[..]).clone();
+            place(dir, &f);
+        }
+        for _ in 0..2 + cx.rng.below(4) {
+            match cx.rng.below(4) {
+                0 => op_latest(cx, dir, pid, true),
+                1 => max = *cx.rng.pick(&[None, Some(0usize), Some(1), Some(2), Some(3)]),
+                _ => {
+                    let ts = cx.rng.below(5) as u64;
+                    op_save(cx, dir, pid, ts, max, false);
+                }
+            }
+        }
+        op_latest(cx, dir, pid, true);
+    }
     // (3) random histories
     let rounds = cx.budget(1000, 20000);
     for _ in 0..rounds {
@@ -1014,19 +1509,26 @@ fn run_hist(cx: &mut Ctx) {
         let npids = 1 + cx.rng.below(3);
         let pids: Vec<&str> = (0..npids).map(|_| *cx.rng.pick(HIST_PIDS)).collect();
         let mut max = *cx.rng.pick(&[None, Some(0usize), Some(1), Some(2), Some(3), Some(5)]);
+        // one history in three carries the file contents through the model
+        let with_content = cx.rng.chance(1, 3);
         for _ in 0..cx.rng.below(4) {
             let look = foreign_for(*cx.rng.pick(&pids));
             let f: String = cx.rng.pick(&look[..]).clone();
             place(dir, &f);
             cx.count("hist:place-foreign");
         }
+        if cx.rng.chance(1, 6) {
+            let ts = rand_ts(&mut cx.rng);
+            place_dir(dir, &format!("checkpoint_{}_{ts}.bin", *cx.rng.pick(&pids)));
+            cx.count("hist:place-directory-with-checkpoint-name");
+        }
         let ops = 1 + cx.rng.below(12);
         for _ in 0..ops {
             let pid = *cx.rng.pick(&pids);
-            match cx.rng.below(12) {
+            match cx.rng.below(13) {
                 0..=5 => {
                     let ts = rand_ts(&mut cx.rng);
-                    op_save(cx, dir, pid, ts, max);
+                    op_save(cx, dir, pid, ts, max, with_content);
                 }
                 6 | 7 => {
                     let en = !cx.rng.chance(1, 8);
@@ -1036,16 +1538,23 @@ fn run_hist(cx: &mut Ctx) {
                 9 => {
                     let look = foreign_for(pid);
                     let f: String = cx.rng.pick(&look[..]).clone();
-            place(dir, &f);
+                    place(dir, &f);
                     cx.count("hist:place-foreign");
                 }
                 10 => {
                     // a well-formed file of a (possibly different) pipeline placed by hand, sometimes with leading zeros
-                    let other = *cx.rng.pick(HIST_PIDS);
-                    let ts = rand_ts(&mut cx.rng);
-                    let name = if cx.rng.chance(1, 4) { format!("checkpoint_{other}_0{ts}.bin") } else { format!("checkpoint_{other}_{ts}.bin") };
+                    let other = if cx.rng.chance(1, 2) { pid } else { *cx.rng.pick(HIST_PIDS) };
+                    let zero = cx.rng.chance(1, 3);
+                    // a second spelling of a small stamp of one of the history's own pipelines => ties do occur
+                    let ts = if zero && cx.rng.chance(2, 3) { cx.rng.below(6) as u64 } else { rand_ts(&mut cx.rng) };
+                    let name = if zero { format!("checkpoint_{other}_0{ts}.bin") } else { format!("checkpoint_{other}_{ts}.bin") };
                     place(dir, &name);
                     cx.count("hist:place-wellformed");
+                }
+                11 => {
+                    let ts = rand_ts(&mut cx.rng);
+                    let st = sll_state(&mut cx.rng, pid, ts);
+                    op_sll(cx, dir, &st, max);
                 }
                 _ => {
                     max = *cx.rng.pick(&[None, Some(0usize), Some(1), Some(2), Some(3), Some(5)]);
